@@ -5,7 +5,7 @@ C18 decided: weight validation, the closed forms new_cum / new_wt_max / new_rho,
 (n, cumulative weight, maximum weight, smaller k), smaller-into-larger orientation, sample assembly.
 Not decided for either: conservation of total weight as arithmetic, unbiasedness / inclusion probabilities, the downsampling case
 analysis."""
-from astu import C, ctxt, gt_pair, eq_const, strip, strip_all, walk, walkp, txt, short, is_this_field, stmts_of, always_throws, functions_by, local_decls
+from astu import C, ctxt, gt_pair, eq_const, reach, reach_txt, ctext, strip, strip_all, walk, walkp, txt, short, is_this_field, stmts_of, always_throws, functions_by, local_decls
 from vlib.core import ob
 
 
